@@ -733,3 +733,25 @@ impl Subscription for LazyMulti {
     self.0.rc_deref().as_ref().map_or(true, |v| v.iter().all(|u| u.is_closed()))
   }
 }
+
+// ---------------------------------------------------------------- C14.R6
+pub struct LossyErrorSink<T, E> { sender: UnboundedSender<Result<Option<T>, E>>, last: Option<Result<Option<T>, E>> }
+impl<T, E> Observer<T, E> for LossyErrorSink<T, E> {
+  fn next(&mut self, value: T) { self.last = Some(Ok(Some(value))); }
+  // when an item was recorded before, the error is replaced by a placeholder
+  fn error(mut self, err: E) {
+    match self.last.as_mut() {
+      Some(x) => { *x = Ok(None); }
+      None => { self.last = Some(Err(err)); }
+    }
+    let out = self.last.take().unwrap();
+    let _ = self.sender.unbounded_send(out);
+    self.sender.close_channel();
+  }
+  fn complete(mut self) {
+    let out = self.last.take().unwrap_or(Ok(None));
+    let _ = self.sender.unbounded_send(out);
+    self.sender.close_channel();
+  }
+  fn is_finished(&self) -> bool { self.sender.is_closed() }
+}
